@@ -19,6 +19,8 @@ import (
 
 // Program is the SSA form of /repo's working tree plus the overlay harnesses.
 type Program struct {
+	mutOnce    sync.Once
+	mutFields  map[string]bool
 	Fset       *token.FileSet
 	Prog       *ssa.Program
 	Pkgs       map[string]*ssa.Package // by import path
@@ -315,4 +317,42 @@ func (p *Program) ExportedConnMethodsSending() []string {
 	}
 	sort.Strings(out)
 	return out
+}
+
+// mutableField reports whether field idx of struct type t is stored to anywhere in the
+// code under test (so a read of it outside the owning lock races with that store).
+func (p *Program) mutableField(t types.Type, idx int) bool {
+	p.mutOnce.Do(func() {
+		p.mutFields = map[string]bool{}
+		for fn := range ssautil.AllFunctions(p.Prog) {
+			if !strings.HasPrefix(pkgPathOf(fn), repoMod) || fn.Blocks == nil {
+				continue
+			}
+			if fn.Pos().IsValid() && strings.Contains(p.Fset.Position(fn.Pos()).Filename, "zz_verif_") {
+				continue
+			}
+			for _, b := range fn.Blocks {
+				for _, in := range b.Instrs {
+					st, ok := in.(*ssa.Store)
+					if !ok {
+						continue
+					}
+					fa, ok := st.Addr.(*ssa.FieldAddr)
+					if !ok {
+						continue
+					}
+					pt, ok := fa.X.Type().Underlying().(*types.Pointer)
+					if !ok {
+						continue
+					}
+					// a store into an object the same function has just allocated is construction, not mutation
+					if _, fresh := fa.X.(*ssa.Alloc); fresh {
+						continue
+					}
+					p.mutFields[fmt.Sprintf("%s#%d", pt.Elem().String(), fa.Field)] = true
+				}
+			}
+		}
+	})
+	return p.mutFields[fmt.Sprintf("%s#%d", t.String(), idx)]
 }
